@@ -90,6 +90,12 @@ pub const MIB: usize = 1024 * 1024;
 
 /// Runs the shipped pipeline wiring with separate arenas (as the integration tests do).
 pub fn run_source(src: &str, cfg: RunCfg) -> Real {
+    let policy = if cfg.allow_process { HostPolicy::native_default() } else { HostPolicy::wasm_default() };
+    run_source_with_policy(src, cfg, policy)
+}
+
+/// Same, with an explicit host policy (`cfg.allow_process` is ignored).
+pub fn run_source_with_policy(src: &str, cfg: RunCfg, policy: HostPolicy) -> Real {
     let arena = Arena::new(cfg.arena_mib * MIB).expect("arena");
     let res_arena = Arena::new(cfg.arena_mib * MIB).expect("arena");
     let frame = Arena::new(cfg.arena_mib * MIB).expect("arena");
@@ -149,7 +155,6 @@ pub fn run_source(src: &str, cfg: RunCfg) -> Real {
         out.plan_fns = plan.removable_function_defs.len();
     }
 
-    let policy = if cfg.allow_process { HostPolicy::native_default() } else { HostPolicy::wasm_default() };
     let mut runtime =
         Runtime::new_with_host_policy(&arena, if cfg.frame { Some(&frame) } else { None }, policy);
     verif::reset_counters();
